@@ -107,29 +107,32 @@ theorem portStats_short (d : Slice) (hwf : d.WF) (hl1 : 2 ≤ d.len) (hl : d.len
 theorem portStats_len (p : V) (pad : Bytes) (cs : List V) :
     anyLenM (.obj "PortStats" (p :: .bytes pad :: cs)) = .ok (104, .obj "PortStats" (p :: .bytes pad :: cs)) := rfl
 
-/-! ### QueueStats: the decoder reads 30 bytes and reports 32 (OpenFlow 1.0 `ofp_queue_stats`) -/
+/-! ### QueueStats: the decoder reads 32 bytes (16-bit port, 2 pad bytes, queue id at 4, counters at 8, 16, 24) and
+    reports 32 (OpenFlow 1.0 `ofp_queue_stats`) -/
 
-theorem queueStats_ok (d : Slice) (hwf : d.WF) (hl : 30 ≤ d.len) :
+theorem queueStats_ok (d : Slice) (hwf : d.WF) (hl : 32 ≤ d.len) :
     ∃ p q tb tp te, QueueStats.unmarshal QueueStats.zero d = .ok (.obj "QueueStats" [p, .bytes [], q, tb, tp, te]) := by
   obtain ⟨x, hx⟩ := Slice.u16From_ok d hwf 0 (by omega)
   obtain ⟨s1, h1, _⟩ := fromR_at d hwf 2 (by omega)
-  obtain ⟨q, hq⟩ := Slice.u32From_ok d hwf 2 (by omega)
-  obtain ⟨tb, htb⟩ := Slice.u64From_ok d hwf 6 (by omega)
-  obtain ⟨tp, htp⟩ := Slice.u64From_ok d hwf 14 (by omega)
-  obtain ⟨te, hte⟩ := Slice.u64From_ok d hwf 22 (by omega)
+  obtain ⟨q, hq⟩ := Slice.u32From_ok d hwf 4 (by omega)
+  obtain ⟨tb, htb⟩ := Slice.u64From_ok d hwf 8 (by omega)
+  obtain ⟨tp, htp⟩ := Slice.u64From_ok d hwf 16 (by omega)
+  obtain ⟨te, hte⟩ := Slice.u64From_ok d hwf 24 (by omega)
   refine ⟨V.u16 x, V.u32 q, V.u64 tb, V.u64 tp, V.u64 te, ?_⟩
   unfold QueueStats.unmarshal QueueStats.zero
-  simp only [List.length_nil, Nat.add_zero, Nat.reduceAdd, hx, h1, hq, htb, htp, hte, Res.bind_ok, copyInto_nil]
+  simp only [Nat.reduceAdd, hx, h1, hq, htb, htp, hte, Res.bind_ok, copyInto_nil]
   rfl
 
-theorem queueStats_short (d : Slice) (hwf : d.WF) (hl1 : 6 ≤ d.len) (hl : d.len < 14) :
+/-- what is left of a 40-byte OpenFlow 1.3 record (8 bytes) makes the next iteration panic: the first counter is
+    read from offset 8 -/
+theorem queueStats_short (d : Slice) (hwf : d.WF) (hl1 : 8 ≤ d.len) (hl : d.len < 16) :
     QueueStats.unmarshal QueueStats.zero d = .panic := by
   obtain ⟨x, hx⟩ := Slice.u16From_ok d hwf 0 (by omega)
   obtain ⟨s1, h1, _⟩ := fromR_at d hwf 2 (by omega)
-  obtain ⟨q, hq⟩ := Slice.u32From_ok d hwf 2 (by omega)
+  obtain ⟨q, hq⟩ := Slice.u32From_ok d hwf 4 (by omega)
   unfold QueueStats.unmarshal QueueStats.zero
-  simp only [List.length_nil, Nat.add_zero, Nat.reduceAdd, hx, h1, hq, Res.bind_ok,
-    u64From_short d hwf 6 (by omega)]
+  simp only [Nat.reduceAdd, hx, h1, hq, Res.bind_ok,
+    u64From_short d hwf 8 (by omega)]
   rfl
 
 theorem queueStats_len (p q tb tp te : V) :
